@@ -59,6 +59,11 @@ def make_rule(rid, m):
         return ConstantPWM(timer=Timer(Time(0.2, 'sec'), TimeInterval(0.3, 'sec')), powertrain=pt, target_pwm_value=0.5)
     if rid == 'cB':
         return ConstantPWM(timer=Timer(Time(400.0, 'ms'), TimeInterval(500.0, 'ms')), powertrain=pt, target_pwm_value=-0.7)
+    if rid == 'c0':
+        # proposes exactly 0 in a window overlapping cA and cB
+        return ConstantPWM(timer=Timer(Time(0.4, 'sec'), TimeInterval(0.35, 'sec')), powertrain=pt, target_pwm_value=0)
+    if rid == 's0':
+        return ConstRule(0)
     if rid == 'cC':
         return ConstantPWM(timer=Timer(Time(2.0, 'sec'), TimeInterval(1.0, 'sec')), powertrain=pt, target_pwm_value=1)
     if rid == 'reach':
@@ -91,7 +96,7 @@ def make_rule(rid, m):
     raise ValueError(rid)
 
 
-BUILTIN_KIND = {'cA': 'ConstantPWM', 'cB': 'ConstantPWM', 'cC': 'ConstantPWM', 'reach': 'ReachAngularPosition',
+BUILTIN_KIND = {'c0': 'ConstantPWM', 's0': 'script', 'cA': 'ConstantPWM', 'cB': 'ConstantPWM', 'cC': 'ConstantPWM', 'reach': 'ReachAngularPosition',
                 'prop': 'StartProportionalToAngularPosition', 'lim': 'StartLimitCurrent',
                 'limlow': 'StartLimitCurrent', 'sNone': 'script', 's0.5': 'script', 's-3': 'script',
                 's1e9': 'script', 's-1e9': 'script'}
